@@ -404,6 +404,7 @@ class Workspace(AbstractContextManager):
                 inspect.isclass(member)
                 and issubclass(member, entity_class)
                 and member is not entity_class
+                and not inspect.isabstract(member)
                 and hasattr(member, "primitive_type")
                 and inspect.ismethod(member.primitive_type)
                 and data_type.primitive_type is member.primitive_type()
